@@ -25,6 +25,13 @@ CTX = [
     ("Map<tuple>", lambda x: ("hmap", rg.P("String"), ("tuple", [rg.P("i32"), x]))),
     ("Option<Map<Vec>>", lambda x: ("opt", ("bmap", rg.P("String"), ("vec", x)))),
     ("ref", lambda x: ("ref", x)),
+    # fixed-size arrays: a type constructor like the others, alone and nested in itself and in the others
+    ("array", lambda x: ("array", x)),
+    ("array<array>", lambda x: ("array", ("array", x))),
+    ("array<Option<array>>", lambda x: ("array", ("opt", ("array", x)))),
+    ("Vec<array>", lambda x: ("vec", ("array", x))),
+    ("array<Map<array>>", lambda x: ("array", ("hmap", rg.P("String"), ("array", x)))),
+    ("array<tuple>", lambda x: ("array", ("tuple", [rg.P("u8"), x]))),
     # a second custom name in the same field that has no declaration of its own (a foreign type): the project type next to it is
     # reachable all the same, whichever of the two names sorts first
     ("tuple-after-foreign", lambda x: ("tuple", [rg.N("AaaForeignPath"), x])),
